@@ -47,7 +47,7 @@ inductive Phase where
 
 /-- Library frames (defunctionalised continuations) and user handler frames. -/
 inductive K where
-  | startCall (op obj : Nat) (kind : OpKind) (counted completed : Bool)
+  | startCall (op obj : Nat) (kind : OpKind) (completed : Bool)
   | user (op : Nat) (after : After)
   | cancelCall (obj : Nat) (phase : Phase)
   | closeCall (obj : Nat)
@@ -212,18 +212,19 @@ def step (w : World) (e : Ev) : Option World :=
   -- inside Cancel
   | .cancelCall k phase :: rest, e => cancelStep w k phase rest e
   -- inside a start call
-  | .startCall op k kind counted false :: rest, .enter op' res _ _ _ =>
+  | .startCall op k kind false :: rest, .enter op' res _ _ _ =>
     if op != op' then none else
     match getObj w k with
     | none => none
     | some o =>
-      if counted then
-        some { w with dispatched := w.dispatched + 1, stack := .user op .decDisp :: .startCall op k kind counted true :: rest }
+      -- `if ioc.Dispatched < MaxCallbackDispatch { asyncReadNow(..., wrapper) } else { scheduleRead(...) }`
+      if hasInline o.kind && decide (w.dispatched < (maxDispatch : Int)) then
+        some { w with dispatched := w.dispatched + 1, stack := .user op .decDisp :: .startCall op k kind true :: rest }
       else if (o.closed && res == .eof) || res == .err then
         -- scheduleRead/Write on a closed object, or the registration failed: callback without the wrapper
-        some { w with stack := .user op .none :: .startCall op k kind counted true :: rest }
+        some { w with stack := .user op .none :: .startCall op k kind true :: rest }
       else none
-  | .startCall op k kind _ completed :: rest, .ret _ =>
+  | .startCall op k kind completed :: rest, .ret _ =>
     if completed then some { w with stack := rest } else
     match getObj w k with
     | none => none
@@ -287,8 +288,8 @@ def step (w : World) (e : Ev) : Option World :=
       | none => none
       | some o =>
         if (getOp w op).isSome then none else
-        let counted := hasInline o.kind && decide (w.dispatched < (maxDispatch : Int))
-        some { w with ops := { id := op, obj := k, kind := kind } :: w.ops, stack := .startCall op k kind counted false :: st }
+        let _ := o
+        some { w with ops := { id := op, obj := k, kind := kind } :: w.ops, stack := .startCall op k kind false :: st }
     | .callCancel k => some (push w (.cancelCall k .reads))
     | .callClose k => some (push w (.closeCall k))
     | .callSched op k rep ticks =>
